@@ -195,10 +195,13 @@ class NodeSliver(BaseSliver):
                 flag = cA.prop_diff(cB)
 
                 # compare child interfaces
-                if cA.get_type() == ComponentType.SmartNIC:
+                # (components with dedicated ports, which can carry sub-interfaces)
+                if cA.get_type() in (ComponentType.SmartNIC, ComponentType.FPGA):
                     cAns = list(cA.network_service_info.network_services.values())[0]
                     cBns = list(cB.network_service_info.network_services.values())[0]
-                    if cAns.diff(cBns):
+                    ns_diff = cAns.diff(cBns)
+                    # only sub-interface changes count here, not changes of the service or its ports themselves
+                    if ns_diff and any(f & WhatsModifiedFlag.SUB_INTERFACES for _, f in ns_diff.modified.interfaces):
                         flag |= WhatsModifiedFlag.SUB_INTERFACES
 
                 if flag != WhatsModifiedFlag.NONE:
